@@ -18,6 +18,13 @@ Oracles / keys
   noise/..       y_err = s  <=>  y_cov = diag(s^2)
   queryform/..   scalar / list / (m,d) array / single d-vector give the rows of the (m,d) result
   predict/..     the library raised on an in-domain input
+  far/<any of the above>   the same oracles on the far-location / unit lattice: x -> xs (x + shift), y -> ys y with shift up to
+                 +-1e6 length-scales and xs, ys in 1e-6 .. 1e6, hyper-parameters carried along, reference on the same floats
+  history/..     (evaluator gphist) every call history of <= depth actions on ONE regressor over {set_hyperparameters with the
+                 caller's array overwritten in place / with a new array} x 3 hyper-parameter vectors and the three prediction
+                 calls: results equal those of a freshly built regressor with the current hyper-parameters
+                 (history/<family>/<call>/<part>-differs-from-fresh-regressor/hyperpars-last-given-by:<how>), the caller's
+                 arrays are untouched (history/caller-array-modified/<which>)
 """
 import itertools
 
@@ -49,6 +56,9 @@ KERNELS = [
 NOISES = ["none", "y_err", "y_cov_diag", "y_cov_full"]
 ND_ALL = [(n, d) for d in (1, 2, 3) for n in (2, 3, 5, 8)] + [(4, 1), (4, 2)]
 DESIGNS = ["regular", "clustered", "permuted"]
+FAR_SHIFTS = [0.0, 1e3, -1e3, 1e6, -1e6]  # in units of the mid-level length-scale
+FAR_SCALES = [1.0, 1e-6, 1e6, 1e-3, 1e3]
+FAR_SCALES_QUICK = [1.0, 1e-6, 1e6]
 
 
 def noise_matrix(kind, n):
@@ -111,7 +121,6 @@ def ev_gp(case):
     kcls = "has-HN" if hn else fam
     X = R.design(case["design"], n, d, seed)
     y = R.y_values(X)
-    theta_k = R.theta_for(spec, X, pattern)
     span = X.max(axis=0) - X.min(axis=0)
     Q = np.vstack(
         [
@@ -122,16 +131,38 @@ def ev_gp(case):
         ]
     ) + np.array([0.0, 0.01, 0.01, 0.01])[:, None] * seed
     Q[0] = X[0]
+    # ------------------------------------------------------------------ far-location / scale lattice (see FAR_* below)
+    # x -> xs * (x + shift), y -> ys * y with the hyper-parameters carried along (length-scales, change-point location and
+    # width with x; amplitudes, noise levels, data errors and mean coefficients with y): the same regression problem in
+    # other units and at another location.  Everything below (reference included) works on the transformed floats.
+    far = case.get("far")
+    xs, ys, shift = (float(far["xs"]), float(far["ys"]), float(far["shift"])) if far else (1.0, 1.0, 0.0)
+    if far:
+        X = np.ascontiguousarray((X + shift) * xs)
+        Q = np.ascontiguousarray((Q + shift) * xs)
+        Q[0] = X[0]
+        y = y * ys
+    theta_k = R.theta_for(spec, X, pattern)
+    if far:
+        for p_, inf_ in enumerate(R.param_info(spec, n, d)):
+            if inf_["kind"] == "log-scale":
+                theta_k[p_] += np.log(xs)
+            elif inf_["kind"] in ("log-amplitude", "log-sigma", "log-sigma-i"):
+                theta_k[p_] += np.log(ys)
     m = Q.shape[0]
     fails, tags, slack, skipped, nev = [], set(), {}, {}, 0
     seen = set()
+    kpre = "far/" if far else ""
+    fardet = {"far": far} if far else {}
 
     def add(key, what, **kw):
+        key = kpre + key
         if key not in seen or len(fails) < 12:
-            fails.append(fail(key, what, kernel=name, n=n, d=d, design=case["design"], pattern=pattern, **kw))
+            fails.append(fail(key, what, kernel=name, n=n, d=d, design=case["design"], pattern=pattern, **fardet, **kw))
         seen.add(key)
 
     def sl(key, err, tol):
+        key = kpre + key
         r = float(np.max(np.asarray(err, dtype=float) / np.asarray(tol, dtype=float)))
         if r > slack.get(key, -1.0):
             slack[key] = r
@@ -182,6 +213,8 @@ def ev_gp(case):
     store = {}
     for noise in NOISES:
         s_err, S = noise_matrix(noise, n)
+        if far:
+            s_err, S = (None if s_err is None else s_err * ys), S * ys**2
         A = Abase + mpmat(S)
         A_f = np.array([[float(A[i, j]) for j in range(n)] for i in range(n)])
         sv = np.linalg.svd(A_f, compute_uv=False)
@@ -199,6 +232,10 @@ def ev_gp(case):
         knorm = np.linalg.norm(Kqx_f, axis=1)
         for mean_name in R.MEANS:
             theta_m = R.mean_theta_for(mean_name, d, pattern)
+            if far:
+                theta_m[0] *= ys
+                theta_m[1 : 1 + d] *= ys / xs
+                theta_m[1 + d :] *= ys / xs**2
             hyper = np.concatenate([theta_m, theta_k])
             # reference means for both expansion conventions of the (undocumented) mean parametrisation
             refs = []
@@ -214,6 +251,15 @@ def ev_gp(case):
                 an = float(mp.norm(alpha))
                 mscale = np.array([float(abs(v)) for v in mq]) + float(np.abs(theta_m).sum()) * (1.0 + float(np.abs(Q).max())) ** 2
                 rscale = float(np.linalg.norm(y)) + float(mp.norm(mp.matrix([[v] for v in mx])))
+                if far:
+                    # rounding of t0 + g.(p-c) + h.(p-c)^2 term by term: p-c carries eps(|p|+|c|) (c is a computed centroid),
+                    # so the terms carry |g|(|p|+|c|) and |h|(2(|p|+|c|)|p-c| + |p-c|^2)  (units cancel: no power of 1+|p|)
+                    c_ = np.asarray(centre, dtype=float)[None, :]
+                    g_ = np.abs(theta_m[1 : 1 + d]) if mean_name != "ConstantMean" else np.zeros(d)
+                    h_ = np.abs(theta_m[1 + d :]) if mean_name == "QuadraticMean" else np.zeros(d)
+                    rnd = lambda P_: abs(float(theta_m[0])) + (np.abs(P_) + np.abs(c_)) @ g_ + (2 * (np.abs(P_) + np.abs(c_)) * np.abs(P_ - c_) + (P_ - c_) ** 2) @ h_
+                    mscale = np.array([float(abs(v)) for v in mq]) + rnd(Q)
+                    rscale += float(np.linalg.norm(rnd(X)))
                 tol_mu = 1e3 * EPS * (cond * knorm * an + knorm * rscale / sv[-1] + mscale)
                 refs.append((cname, mu_ref, tol_mu))
 
@@ -291,8 +337,12 @@ def ev_gp(case):
             if (dv > prior + tol_var).any() or (var_c > prior + tol_var).any():
                 add(f"variance/{fam}/exceeds-prior", f"variance {dv.tolist()} / {var_c.tolist()} above prior {prior.tolist()} {combo}", noise=noise, mean=mean_name)
             store[(noise, mean_name)] = (mu_c, var_c, mu_p, cov_p)
-            tags.add(f"{name},d={d},n={n},{case['design']},{noise},{mean_name}")
-            tags.add(f"cond-decade={int(np.floor(np.log10(cond)))}")
+            if far:
+                tags.add(f"far:{name},d={d},shift={shift:g},xs={xs:g},ys={ys:g},{noise},{mean_name}")
+                tags.add(f"far:cond-decade={int(np.floor(np.log10(cond)))},shift={shift:g}")
+            else:
+                tags.add(f"{name},d={d},n={n},{case['design']},{noise},{mean_name}")
+                tags.add(f"cond-decade={int(np.floor(np.log10(cond)))}")
 
             def same_as_base(g, label, key, rows=None, Qarg=None):
                 """prediction of regressor g at Qarg equals rows of the closed form"""
@@ -367,7 +417,219 @@ def ev_gp(case):
     }
 
 
-EVALUATORS = {"gp": ev_gp}
+# ====================================================================================== call histories on ONE regressor
+# A history is a sequence over the alphabet
+#   Sk   theta[:] = THETA_k ; gp.set_hyperparameters(theta)   theta is the caller's array that the constructor was given
+#                                                             (and every earlier S call): overwritten in place, same object
+#   Fk   gp.set_hyperparameters(THETA_k.copy())               a new array every time
+#   C    gp(q)        P   gp.build_posterior(q)        M   gp.build_posterior(q, mean_only=True)
+# k = 0, 1, 2:  THETA_0 is what the constructor was given, THETA_1 differs from it only in the mean-function block, THETA_2
+# only in the covariance block (so 1 <-> 2 differ in both).  The overwrite and the call are one action: the property speaks
+# about the hyper-parameter vector the regressor was last GIVEN; an array modified behind its back is outside the claim.
+# Oracle (differential): after every prediction, and in an audit of all three calls at the end of every history, the result
+# equals that of a freshly constructed regressor with the same data and the current hyper-parameters; the caller's arrays
+# are byte-identical to what the caller wrote.
+HIST_ACTIONS = ["S0", "S1", "S2", "F0", "F1", "F2", "C", "P", "M"]
+HIST_RTOL = 1e-12
+HIST_CONFIGS = [
+    # (kernel, mean, noise, n, d)
+    ("SE", "ConstantMean", "y_err", 4, 1),
+    (["add", "RQ", "WN"], "LinearMean", "none", 4, 2),
+    (["cp", 0, "SE", "SE"], "QuadraticMean", "y_cov_full", 5, 1),
+    ("RQ", "LinearMean", "y_cov_diag", 3, 2),
+    (["add", "SE", "HN"], "ConstantMean", "none", 4, 1),
+    (["cp", 0, "SE", "RQ"], "LinearMean", "y_err", 5, 2),
+    (["add", "SE", "RQ"], "QuadraticMean", "y_err", 4, 3),
+    ("SE", "QuadraticMean", "none", 5, 2),
+    (["add", ["cp", 0, "SE", "SE"], "WN"], "ConstantMean", "y_cov_full", 4, 1),
+]
+
+
+def hist_thetas(spec, mean_name, X, pattern):
+    n, d = X.shape
+    tm0, tk0 = R.mean_theta_for(mean_name, d, pattern), R.theta_for(spec, X, pattern)
+    tm1 = R.mean_theta_for(mean_name, d, (pattern + 1) % 9)
+    if np.array_equal(tm1, tm0):
+        tm1 = tm0 + 0.25
+    tk2 = R.theta_for(spec, X, (pattern + 1) % 9)
+    if np.array_equal(tk2, tk0):
+        tk2 = tk0 + 0.125
+    return [np.concatenate([tm0, tk0]), np.concatenate([tm1, tk0]), np.concatenate([tm0, tk2])], len(tm0)
+
+
+def _dev(got, want):
+    """0 if bit-for-bit equal, else max|got-want| / (HIST_RTOL * max|want|)"""
+    got, want = np.asarray(got, dtype=float), np.asarray(want, dtype=float)
+    if got.shape != want.shape:
+        return float("inf")
+    if got.tobytes() == want.tobytes():
+        return 0.0
+    if not (np.isfinite(got).all() and np.isfinite(want).all()):
+        return float("inf")
+    sc = float(np.abs(want).max())
+    e = float(np.abs(got - want).max())
+    return e / (HIST_RTOL * sc) if sc > 0 else float("inf")
+
+
+def ev_gphist(case):
+    from inference.gp import GpRegressor
+
+    spec, mean_name, noise, n, d = case["spec"], case["mean"], case["noise"], case["n"], case["d"]
+    pattern, seed, depth = case["pattern"], case["seed"], case["depth"]
+    name, fam = R.spec_name(spec), ("has-HN" if R.contains(spec, "HN") else R.family(spec))
+    X0 = R.design("regular", n, d, seed)
+    y0 = R.y_values(X0)
+    s_err, S = noise_matrix(noise, n)
+    thetas, nm = hist_thetas(spec, mean_name, X0, pattern)
+    span = X0.max(axis=0) - X0.min(axis=0)
+    Q0 = np.vstack([X0[0], 0.5 * (X0[0] + X0[-1]) + 0.013, X0.max(axis=0) + 0.4 * span + 0.1])
+    fails, seen, tags, slack = [], {}, set(), {}
+    cnt = {"n": 0, "hist": 0}
+
+    def bad(key, what, **kw):
+        seen[key] = seen.get(key, 0) + 1
+        if seen[key] == 1:
+            fails.append(fail(key, what, kernel=name, mean=mean_name, noise=noise, n=n, d=d, pattern=pattern, **kw))
+
+    def make(theta, own):
+        """own=True: the caller's own arrays are handed over (and watched); else copies"""
+        kw = {}
+        arrs = {"x": X0.copy(), "y": y0.copy(), "theta": theta}
+        if noise == "y_err":
+            kw["y_err"] = arrs["y_err"] = s_err.copy()
+        elif noise in ("y_cov_diag", "y_cov_full"):
+            kw["y_cov"] = arrs["y_cov"] = np.ascontiguousarray(S.copy())
+        with lib("GpRegressor()"):
+            g = GpRegressor(arrs["x"], arrs["y"], hyperpars=theta, kernel=R.make_kernel(spec), mean=R.make_mean(mean_name), **kw)
+        cnt["n"] += 1
+        return g, arrs
+
+    def predict(g, which, q):
+        if which == "C":
+            with lib("__call__"):
+                a, b = g(q)
+            out = [np.asarray(a, dtype=float), np.asarray(b, dtype=float)]
+        elif which == "P":
+            with lib("build_posterior"):
+                a, b = g.build_posterior(q)
+            out = [np.asarray(a, dtype=float), np.asarray(b, dtype=float)]
+        else:
+            with lib("build_posterior(mean_only)"):
+                out = [np.asarray(g.build_posterior(q, mean_only=True), dtype=float)]
+        cnt["n"] += 1
+        return out
+
+    # what a freshly built regressor returns for each hyper-parameter vector (computed once per case)
+    fresh = []
+    for k in range(3):
+        g, _ = make(thetas[k].copy(), False)
+        fresh.append({w: predict(g, w, Q0.copy()) for w in "CPM"})
+    part = {"C": ("mean", "sd"), "P": ("mean", "covariance"), "M": ("mean",)}
+    meth = {"C": "__call__", "P": "build_posterior", "M": "mean_only"}
+
+    def run(hist):
+        T = thetas[0].copy()
+        try:
+            g, arrs = make(T, True)
+        except LibFailure as e:
+            bad(f"history/{fam}/constructor/raises:{e.exc_type}", f"{name}: {e}", traceback=e.tb, history=[])
+            return False
+        q = Q0.copy()
+        want = dict(x=X0, y=y0, theta=thetas[0], q=Q0)
+        if "y_err" in arrs:
+            want["y_err"] = s_err
+        if "y_cov" in arrs:
+            want["y_cov"] = S
+        arrs["q"] = q
+        cur, how, prev = 0, "constructor", None
+        ok = True
+
+        def observe(w, done, audit):
+            nonlocal ok
+            try:
+                got = predict(g, w, q)
+            except LibFailure as e:
+                bad(f"history/{fam}/{meth[w]}/raises:{e.exc_type}", f"{name} after {done}: {e}", traceback=e.tb, history=done)
+                ok = False
+                return
+            tags.add(f"hist-observe {meth[w]} hyperpars-last-given-by:{how} changing:{prev} {'audit' if audit else 'step'},{fam},{mean_name},{noise}")
+            for pn, a, b in zip(part[w], got, fresh[cur][w]):
+                r = _dev(a, b)
+                sk = f"history/{meth[w]}/{pn}"
+                slack[sk] = max(slack.get(sk, 0.0), r)
+                if r > 1:
+                    bad(
+                        f"history/{fam}/{meth[w]}/{pn}-differs-from-fresh-regressor/hyperpars-last-given-by:{how}",
+                        f"{name}, {mean_name}, noise={noise}: after [{', '.join(done)}]{' (audit at the end of the history)' if audit else ''} {meth[w]} {pn} = {a.tolist()} but a freshly "
+                        f"built regressor with the same data and the current hyper-parameters {thetas[cur].tolist()} gives {b.tolist()} (deviation {r:.3g} x {HIST_RTOL:g} relative)",
+                        history=done, current=cur, changed_block=prev,
+                    )
+                    ok = False
+
+        def unchanged(done):
+            nonlocal ok
+            for nm_, a in arrs.items():
+                w_ = want[nm_]
+                if a.shape != w_.shape or a.tobytes() != np.ascontiguousarray(w_, dtype=a.dtype).tobytes():
+                    bad(f"history/caller-array-modified/{nm_.split('#')[0]}", f"{name}: after [{', '.join(done)}] the caller's {nm_} is {a.tolist()}, the caller wrote {w_.tolist()}", history=done)
+                    ok = False
+
+        for t, act in enumerate(hist):
+            done = hist[: t + 1]
+            if act[0] in "SF":
+                k = int(act[1])
+                same_m = np.array_equal(thetas[k][:nm], thetas[cur][:nm])
+                same_k = np.array_equal(thetas[k][nm:], thetas[cur][nm:])
+                prev = "none" if (same_m and same_k) else ("mean-only" if same_k else ("cov-only" if same_m else "both"))
+                if act[0] == "S":
+                    T[:] = thetas[k]
+                    want["theta"] = thetas[k]
+                    arg, how = T, "same-array-overwritten-in-place"
+                else:
+                    arg = thetas[k].copy()
+                    arrs[f"theta-new-array#{t}"] = arg
+                    want[f"theta-new-array#{t}"] = thetas[k]
+                    how = "new-array"
+                try:
+                    with lib("set_hyperparameters"):
+                        g.set_hyperparameters(arg)
+                except LibFailure as e:
+                    bad(f"history/{fam}/set_hyperparameters/raises:{e.exc_type}", f"{name} after {done}: {e}", traceback=e.tb, history=done)
+                    return False
+                cnt["n"] += 1
+                cur = k
+            else:
+                observe(act, done, False)
+            unchanged(done)
+            if not ok:
+                return False
+        for w in "CPM":
+            observe(w, list(hist), True)
+        unchanged(list(hist) + ["audit"])
+        return ok
+
+    first = case["first"]
+    frontier = [[first]]
+    while frontier:
+        nxt = []
+        for h in frontier:
+            cnt["hist"] += 1
+            if run(h) and len(h) < depth:
+                nxt += [h + [a] for a in HIST_ACTIONS]
+        frontier = nxt
+    for f in fails:
+        f["occurrences_in_case"] = seen[f["key"]]
+    tags.add(f"history-config {name},{mean_name},{noise},n={n},d={d},first={first}")
+    return {
+        "fails": fails[:30],
+        "n": cnt["n"],
+        "tags": tags,
+        "slack": slack,
+        "sample": {"kernel": name, "mean": mean_name, "noise": noise, "n": n, "d": d, "first": first, "histories": cnt["hist"], "thetas": [t.tolist() for t in thetas]},
+    }
+
+
+EVALUATORS = {"gp": ev_gp, "gphist": ev_gphist}
 
 
 def run(ck):
@@ -388,12 +650,60 @@ def run(ck):
                 for pat in sorted(set(pats)):
                     cases.append({"spec": spec, "n": n, "d": d, "design": des, "pattern": pat, "seed": seed})
     ck.run_cases("gp", cases, chunk=1)
+    # ---- the same regression problems far from the origin and in other units (simplest first: shifts only, then scales)
+    scales = FAR_SCALES_QUICK if quick else FAR_SCALES
+    nonunit = [(a, b) for a in scales for b in scales if (a, b) != (1.0, 1.0)]
+    fnd = [(3, 1, "regular"), (5 if not quick else 4, 2, "clustered"), (4 if not quick else 3, 2, "permuted"), (3, 3, "regular"), (4, 1, "clustered")]
+    fcases = []
+    for ki, spec in enumerate(KERNELS):
+        if quick:
+            cfgs = [(fnd[(ki + seed) % len(fnd)], (ki + seed) % 9)]
+        else:
+            cfgs = [(fnd[(ki + seed + j) % len(fnd)], (ki + seed + 4 * j) % 9) for j in range(3)]
+        for (n, d, des), pat in cfgs:
+            base = {"spec": spec, "n": n, "d": d, "design": des, "pattern": pat, "seed": seed, "perms": not quick and n <= 4}
+            for sh in FAR_SHIFTS[1:]:
+                fcases.append(dict(base, far={"shift": sh, "xs": 1.0, "ys": 1.0}))
+            for j, (a, b) in enumerate(nonunit):
+                shs = [FAR_SHIFTS[(ki + j + seed) % len(FAR_SHIFTS)]] if quick else FAR_SHIFTS
+                for sh in shs:
+                    fcases.append(dict(base, far={"shift": sh, "xs": a, "ys": b}))
+    ck.run_cases("gp", fcases, chunk=1)
+    # ---- call histories on one regressor: every sequence of <= depth actions, in blocks by first action, shortest first
+    hdepth = 3 if quick else 4
+    hcases = []
+    hsel = [(seed + j) % len(HIST_CONFIGS) for j in range(6)] if quick else list(range(len(HIST_CONFIGS)))
+    for dep in (1, hdepth):
+        for ci in hsel:
+            spec, mean, noise, n, d = HIST_CONFIGS[ci]
+            for pat in ([(ci + seed) % 9] if quick else [(ci + seed) % 9, (ci + seed + 4) % 9]):
+                for first in HIST_ACTIONS:
+                    hcases.append({"spec": spec, "mean": mean, "noise": noise, "n": n, "d": d, "pattern": pat, "seed": seed, "first": first, "depth": dep})
+    ck.run_cases("gphist", hcases, chunk=1)
+    ck.extra["far_lattice"] = {"shifts_in_mid_level_length_scales": FAR_SHIFTS, "scales_x_and_y": scales, "cases": len(fcases)}
+    ck.extra["call_histories"] = {"alphabet": HIST_ACTIONS, "depth": hdepth, "configurations": [[R.spec_name(HIST_CONFIGS[c][0])] + list(HIST_CONFIGS[c][1:]) for c in hsel],
+                                  "histories_per_configuration": sum(len(HIST_ACTIONS) ** l for l in range(1, hdepth + 1))}
     ck.rule = (
         "every element of {11 kernel compositions} x {(n,d)} x {regular, clustered near-duplicate, permuted+stretched designs} x {hyper-parameter "
         "level patterns} x {no noise, y_err, diagonal y_cov, full y_cov} x {Constant, Linear, Quadratic mean}; per element 4 query points (a training "
         "point, interior, offset, far extrapolation) in every accepted query form, and all n! orders of the training set (n<=4; a 6-entry menu above). "
-        "A lattice point is distinct by (kernel, d, n, design, noise, mean); condition-number decades reached are counted too."
+        "A lattice point is distinct by (kernel, d, n, design, noise, mean); condition-number decades reached are counted too. "
+        "Far-location / unit lattice (keys far/..): the same elements (one (n,d,design,pattern) per kernel in the quick tier, three in the thorough tier) with "
+        "x -> xs*(x + shift), y -> ys*y, shift in {0, +-1e3, +-1e6} mid-level length-scales, xs, ys in {1e-6, [1e-3,] 1, [1e3,] 1e6}, the hyper-parameters, data errors and mean "
+        "coefficients carried along (same problem in other units at another location); reference and tolerances computed on the transformed floats; quick: "
+        "all four shifts at unit scale plus every non-unit (xs, ys) at one rotating shift; thorough: the full product; distinct by (kernel, d, shift, xs, ys, noise, mean). "
+        "Call histories (keys history/..): on ONE regressor every sequence of <= depth (quick 3, thorough 4) actions over {set_hyperparameters(theta_k) with the caller's one "
+        "array overwritten in place (the object the constructor was given), set_hyperparameters(new array theta_k), __call__(q), build_posterior(q), "
+        "build_posterior(q, mean_only)} x k in {0: as constructed, 1: only the mean block differs, 2: only the covariance block differs}, for 9 (kernel, mean, noise, n, d) "
+        "configurations (quick: a seed-rotated window of 6); after every prediction and in an audit of all three calls at the end of every history the results must equal (bit for bit, else 1e-12 of the "
+        "largest entry) those of a freshly constructed regressor with the same data and the current hyper-parameters, and x, y, y_err / y_cov, q and every theta array "
+        "handed over must be byte-identical to what the caller wrote; a history tag is (call, how the current hyper-parameters were given, which block changed, step/audit, kernel family, mean, noise)."
     )
+    ck.assume("call histories: 'the hyper-parameter vector' is the one last GIVEN to the constructor / set_hyperparameters; the in-place overwrite of the caller's array is always followed "
+              "by set_hyperparameters with that array before the next prediction (an array modified behind the regressor's back is outside the claim); histories are bounded by the stated "
+              "depth, n <= 5, d <= 3 and one hyper-parameter pattern per configuration (two in the thorough tier); the fresh regressor itself is covered by the closed-form lattice")
+    ck.assume("far-location lattice: locations up to 1e6 mid-level length-scales from the origin (the per-dimension length-scales of the lattice are 0.3 .. 3.7 times that) and units "
+              "1e-6 .. 1e6 for x and y with the hyper-parameters expressed in the same units; rounding of the mean function is bounded term by term with |x| + |centroid| for x - centroid")
     ck.assume("continuous inputs are represented by the listed deterministic designs (n <= 8, d <= 3); designs with cond(K_xx+S) > 1e10 are skipped and counted")
     ck.assume("y_cov is given as an ndarray (documented form); a single training point is rejected by the constructor and is outside the domain")
     ck.assume("the size of the diagonal jitter of K_xx (documented as 'small values added to the diagonal') is read from build_covariance after checking it lies in [0, 1e-10*K_ii]")
